@@ -1,5 +1,6 @@
 import PsiModel.Edges
 import PsiProofs.Helper.C13_Tiling
+import PsiProofs.Helper.C13_Clean
 /-!
 C13 — edge detection reports every clean transition once, at its exact sample.
 
@@ -231,6 +232,19 @@ theorem combine_detector_blocks (m : Nat) (det : Detect) (i0 : Bool) (s0in : Int
     refine ⟨st', b :: bs', _, by rw [← hb]; exact h1, ((combineEvents_spec b bs').1 h4), h3.1.1, ?_⟩
     simp only
     rw [← hb, hbs, specBlocks_flat det m hm _ (clean_at hc s0in), total_eq_length_flatten]
+
+/-! ### the hypothesis covers the property's quantifier -/
+
+/-- every stream of the property's quantifier — alternating runs (`ofRuns v ls`), each run non-empty,
+all but possibly the last longer than `m`; any first value `v`, any initial state `i0` — satisfies
+`Clean`.  (`Clean` is weaker: it does not constrain the first run when it continues the initial
+state, so the theorems above hold for more streams than the property demands.) -/
+theorem clean_ofRuns (m : Nat) (i0 v : Bool) (ls : List Nat)
+    (h1 : ∀ l ∈ ls, 1 ≤ l) (h2 : ∀ l ∈ ls.dropLast, m < l) : Clean m i0 (ofRuns v ls) :=
+  gap_ofRuns m ls v i0 0 h1 h2
+
+example : ofRuns false [4, 3, 5] =
+    [false, false, false, false, true, true, true, false, false, false, false, false] := rfl
 
 /-! ### non-vacuity -/
 
